@@ -104,7 +104,7 @@ def classes(case):
 TARGETS = ['b', 'alpha', '1', '1.5', '-', '1,000', ',', '^x', 'x^y', '"q"', '"a b"', '"a, b"', '"(x)"', '"^"', '"a\\"b"', '""', 'a.b', 'c,', ',c',
            '"x ^ y"', '"r(a, b)"', '\u00e9', '-0.0']
 ROLES = [':instance', 'instance', ':ARG0', 'ARG1', ':ARG0-of-of', 'mod-of-of', ':domain-of', ':r-of', ':op1', ':^x', 'a,b', ':x.y', ':-', 'mod',
-         ':\ufeffARG0', '\ufeffr', ':INSTANCE', 'Instance', ':\xa0r', ':r\u2028', ':\u0130']
+         ':x{{y}}', ':{}', ':{0}', ':%s', ':\ufeffARG0', '\ufeffr', ':INSTANCE', 'Instance', ':\xa0r', ':r\u2028', ':\u0130']
 SOURCES = ['a', 'b', 'x1', '_', '^a', '\u00e9', '1', '-']
 
 
